@@ -39,6 +39,19 @@ DOMAIN = {3: (0, 23, 'hour'), 4: (0, 59, 'minute'), 5: (0, 59, 'second')}
 
 
 def check(ctx, rep):
+    # TIME$ = "hh" / "hh:mm": the fields left out are zero, not the current time
+    tm = ctx.fn('pcbasic/basic/clock.py:Clock.time_')
+    pads = [a for a in own_nodes(tm) if isinstance(a, ast.AugAssign) and norm(a.target) == 'timelist' and isinstance(a.op, ast.Add)]
+    okp = len(pads) == 1 and isinstance(pads[0].value, ast.BinOp) and isinstance(pads[0].value.op, ast.Mult) and norm(pads[0].value.left) == '[0]' \
+        and norm(pads[0].value.right) in ('3 - len(timelist)', '(3 - len(timelist))')
+    rep.ob('time.omitted-fields-are-zero', 'Clock.time_ pads a short time with zeros up to three fields', okp,
+           repr([norm(p_.value) for p_ in pads]) + ': TIME$="10:30" does not read back as 10:30:00', ctx.where(tm))
+    # ENVIRON stores the value as given: nothing rewrites it between the split at `=` and the conversion
+    se = ctx.fn('pcbasic/basic/dos.py:Environment._setenv')
+    rebinds = [a for a in own_nodes(se) if isinstance(a, (ast.Assign, ast.AugAssign)) and norm(a.targets[0] if isinstance(a, ast.Assign) else a.target) == 'value']
+    conv = [a for a in own_nodes(se) if isinstance(a, ast.Assign) and norm(a.value) == 'self._codepage.bytes_to_unicode(value)']
+    rep.ob('environ.value-stored-as-given', 'Environment._setenv converts and stores the value parameter unchanged', not rebinds and len(conv) == 1,
+           'the value is rewritten before it is stored (%s): what ENVIRON$ returns differs from what ENVIRON set' % [short(r, 40) for r in rebinds], ctx.where(se))
     # ENVIRON$ reads the host environment every time: the Environment object keeps no copy of a value (a cache keyed before the
     # name is upper-cased goes stale after ENVIRON "name=..." )
     env = ctx.cls('pcbasic/basic/dos.py:Environment')
@@ -169,6 +182,10 @@ def variants(ctx):
 
     old_cond = 'timelist[0] < 0 or timelist[0] > 23 or timelist[1] < 0 or (timelist[1] > 59) or (timelist[2] < 0) or (timelist[2] > 59)'
     return [
+        mu.Variant('short-time-padded-from-the-clock', 'break', 'pcbasic/basic/clock.py',
+                   lambda tree: mu.replace_expr(mu.find_def(tree, 'Clock.time_'), mu.text_is('[0] * (3 - len(timelist))'), '[now.hour, now.minute, now.second][len(timelist):]'), expect='time.omitted-fields-are-zero'),
+        mu.Variant('lone-semicolon-value-cleared', 'break', 'pcbasic/basic/dos.py',
+                   lambda tree: mu.insert_before(mu.find_def(tree, 'Environment._setenv'), lambda st: isinstance(st, ast.Assign) and 'bytes_to_unicode(value)' in norm(st.value), "if value == b';':\n    value = b''"), expect='environ.value-stored-as-given'),
         mu.Variant('environ-values-cached-in-the-object', 'break', 'pcbasic/basic/dos.py',
                    lambda tree: mu.insert_first(mu.find_def(tree, 'Environment._getenv'), "self._cache = getattr(self, '_cache', {})"), expect='environ.no-copy-of-the-environment'),
         Va('time-upper-bounds-only', 'break', CLOCK,
